@@ -130,6 +130,32 @@ def handle (op : String) (a : Json) : Except String Json := do
     | .ok rows => return ok (arr (rows.map rowJson))
     | .error .typeError => return err "TypeError"
     | .error .notFound => return err "NotFound"
+  | "session" =>
+    let proc ← getBool a "proc"
+    let rs ← getArr a "races"
+    let mut races : Array Stats := #[]
+    for r in rs do
+      match (← getStats r) with
+      | some st => races := races.push st
+      | none => return err "OutOfDomain"
+    let cs ← getArr a "calls"
+    let mut calls : List Call := []
+    for c in cs do
+      let kind ← c.getObjValAs? String "kind"
+      let i ← getNat c "b"
+      let j ← getNat c "c"
+      match races[i]?, races[j]? with
+      | some b, some cc =>
+        if kind == "report" then calls := Call.report b cc :: calls
+        else calls := Call.table (kind == "plain") b cc :: calls
+      | _, _ => throw "bad race index"
+    let init ← getBool a "init_plain"
+    let out := runSession CompareRows.blocks proc ⟨init⟩ calls.reverse
+    let resJson (r : Except Err (List Row)) : Json := match r with
+      | .ok rows => Json.mkObj [("r", arr (rows.map rowJson))]
+      | .error .typeError => Json.mkObj [("err", Json.str "TypeError")]
+      | .error .notFound => Json.mkObj [("err", Json.str "NotFound")]
+    return ok (arr (out.map (fun l => arr (l.map resJson))))
   | "thr" =>
     return ok (arr [ratStr (thr 5), ratStr (thr 2)])
   | "strip" =>
